@@ -151,6 +151,8 @@ pub fn menu(s: &Structure) -> Vec<Op> {
     for o in 0..3 {
         v.push(Op::StrayCallback { seq: 999, outcome: o, foreign_channel: false });
     }
+    v.push(Op::StrayReply { id: 77, ok: true });
+    v.push(Op::StrayReply { id: 78, ok: false });
     v.push(Op::Donate { denom: Funds::Native });
     v.push(Op::Donate { denom: Funds::Lst });
     v.push(Op::Breaker { sender: P::Admin });
